@@ -10,28 +10,28 @@ Section ValInd.
 Variable P : val -> Prop.
 Hypothesis HNone : P VNone.
 Hypothesis HBool : forall b, P (VBool b).
-Hypothesis HInt : forall z, P (VInt z).
-Hypothesis HFloat : forall z, P (VFloat z).
-Hypothesis HStr : forall s, P (VStr s).
-Hypothesis HBytes : forall s, P (VBytes s).
-Hypothesis HPath : forall s, P (VPath s).
+Hypothesis HInt : forall k z, P (VInt k z).
+Hypothesis HFloat : forall k z, P (VFloat k z).
+Hypothesis HStr : forall k s, P (VStr k s).
+Hypothesis HBytes : forall k s, P (VBytes k s).
+Hypothesis HPath : forall k s, P (VPath k s).
 Hypothesis HFile : forall f s, P (VFile f s).
-Hypothesis HList : forall l, Forall P l -> P (VList l).
-Hypothesis HTuple : forall l, Forall P l -> P (VTuple l).
-Hypothesis HSet : forall fr l, Forall P l -> P (VSet fr l).
-Hypothesis HDict : forall kv, Forall (fun p => P (fst p) /\ P (snd p)) kv -> P (VDict kv).
+Hypothesis HList : forall k l, Forall P l -> P (VList k l).
+Hypothesis HTuple : forall k l, Forall P l -> P (VTuple k l).
+Hypothesis HSet : forall k fr l, Forall P l -> P (VSet k fr l).
+Hypothesis HDict : forall k kv, Forall (fun p => P (fst p) /\ P (snd p)) kv -> P (VDict k kv).
 
 Fixpoint val_ind' (v : val) : P v :=
   let go := fix go (l : list val) : Forall P l :=
               match l with [] => Forall_nil P | a :: r => Forall_cons a (val_ind' a) (go r) end in
   match v with
-  | VNone => HNone | VBool b => HBool b | VInt z => HInt z | VFloat z => HFloat z
-  | VStr s => HStr s | VBytes s => HBytes s | VPath s => HPath s | VFile f s => HFile f s
-  | VList l => HList l (go l)
-  | VTuple l => HTuple l (go l)
-  | VSet fr l => HSet fr l (go l)
-  | VDict kv =>
-      HDict kv ((fix gd (l : list (val * val)) : Forall (fun p => P (fst p) /\ P (snd p)) l :=
+  | VNone => HNone | VBool b => HBool b | VInt k z => HInt k z | VFloat k z => HFloat k z
+  | VStr k s => HStr k s | VBytes k s => HBytes k s | VPath k s => HPath k s | VFile f s => HFile f s
+  | VList k l => HList k l (go l)
+  | VTuple k l => HTuple k l (go l)
+  | VSet k fr l => HSet k fr l (go l)
+  | VDict k kv =>
+      HDict k kv ((fix gd (l : list (val * val)) : Forall (fun p => P (fst p) /\ P (snd p)) l :=
                    match l with
                    | [] => Forall_nil _
                    | (a, b) :: r => Forall_cons (a, b) (conj (val_ind' a) (val_ind' b)) (gd r)
@@ -41,42 +41,43 @@ End ValInd.
 
 (* ------------------------------------------------------------------ the relation, rule by rule *)
 Section Rules.
+Variable T : tables.
 Variable A : cls -> cls -> bool.
 
-Lemma nss_allowed v v' : A (class_of v) (class_of v') = true -> nss A v v' = true.
+Lemma nss_allowed v v' : A (class_of T v) (class_of T v') = true -> nss T A v v' = true.
 Proof. intros H. destruct v'; cbn [nss]; rewrite H; reflexivity. Qed.
 
-Lemma nss_scalar v v' : is_coll v' = false -> (is_coll v && is_strlike v') = false -> nss A v v' = true.
+Lemma nss_scalar v v' : is_coll v' = false -> (is_coll v && is_strlike v') = false -> nss T A v v' = true.
 Proof.
   intros Hc Hs. destruct v'; cbn in Hc; try discriminate; cbn [nss is_coll]; rewrite Hs; cbn; apply orb_true_r.
 Qed.
 
-Lemma nss_wrap v x : nss A v x = true -> nss A v (VList [x]) = true.
+Lemma nss_wrap v k x : nss T A v x = true -> nss T A v (VList k [x]) = true.
 Proof. intros H. cbn [nss is_coll]. rewrite H. cbn. apply orb_true_r. Qed.
 
-Definition has_source (v : val) (x' : val) : Prop := exists x, In x (children v) /\ nss A x x' = true.
+Definition has_source (v : val) (x' : val) : Prop := exists x, In x (children v) /\ nss T A x x' = true.
 
-Lemma has_source_b v x' : has_source v x' -> existsb (fun x => nss A x x') (children v) = true.
+Lemma has_source_b v x' : has_source v x' -> existsb (fun x => nss T A x x') (children v) = true.
 Proof. intros [x [Hx Hn]]. apply existsb_exists. exists x; split; assumption. Qed.
 
 Lemma nss_items v v' l :
-  is_coll v = true -> (v' = VList l \/ v' = VTuple l \/ exists fr, v' = VSet fr l) ->
-  Forall (has_source v) l -> nss A v v' = true.
+  is_coll v = true -> ((exists k, v' = VList k l) \/ (exists k, v' = VTuple k l) \/ exists k fr, v' = VSet k fr l) ->
+  Forall (has_source v) l -> nss T A v v' = true.
 Proof.
   intros Hc Hv HF.
-  assert (forallb (fun x' => existsb (fun x => nss A x x') (children v)) l = true) as Hb.
+  assert (forallb (fun x' => existsb (fun x => nss T A x x') (children v)) l = true) as Hb.
   { apply forallb_forall. rewrite Forall_forall in HF. intros x' Hx'. apply has_source_b, HF, Hx'. }
-  destruct Hv as [->|[->|[fr ->]]]; cbn [nss is_coll]; rewrite Hc, Hb; cbn;
+  destruct Hv as [[k ->]|[[k ->]|[k [fr ->]]]]; cbn [nss is_coll]; rewrite Hc, Hb; cbn;
     repeat (rewrite ?orb_true_r; cbn); reflexivity.
 Qed.
 
-Lemma nss_dict v kv :
+Lemma nss_dict v k kv :
   is_coll v = true -> Forall (fun p => has_source v (fst p) /\ has_source v (snd p)) kv ->
-  nss A v (VDict kv) = true.
+  nss T A v (VDict k kv) = true.
 Proof.
   intros Hc HF. cbn [nss is_coll]. rewrite Hc.
   assert (forallb (fun p => let '(k', x') := p in
-                     existsb (fun x => nss A x k') (children v) && existsb (fun x => nss A x x') (children v)) kv
+                     existsb (fun x => nss T A x k') (children v) && existsb (fun x => nss T A x x') (children v)) kv
           = true) as Hb.
   { apply forallb_forall. rewrite Forall_forall in HF. intros [k' x'] Hp. destruct (HF _ Hp) as [H1 H2].
     cbn in H1, H2. now rewrite (has_source_b _ _ H1), (has_source_b _ _ H2). }
@@ -84,39 +85,62 @@ Proof.
 Qed.
 
 (* every value is a faithful image of itself *)
-Lemma nss_refl : forall v, nss A v v = true.
+Lemma nss_refl : forall v, nss T A v v = true.
 Proof.
   induction v using val_ind'; try (apply nss_scalar; reflexivity).
-  - eapply nss_items; [reflexivity|left; reflexivity|].
+  - eapply nss_items; [reflexivity|left; eexists; reflexivity|].
     rewrite Forall_forall in *. intros x Hx. exists x; split; [exact Hx|auto].
-  - eapply nss_items; [reflexivity|right; left; reflexivity|].
+  - eapply nss_items; [reflexivity|right; left; eexists; reflexivity|].
     rewrite Forall_forall in *. intros x Hx. exists x; split; [exact Hx|auto].
-  - eapply nss_items; [reflexivity|right; right; eexists; reflexivity|].
+  - eapply nss_items; [reflexivity|right; right; eexists; eexists; reflexivity|].
     rewrite Forall_forall in *. intros x Hx. exists x; split; [exact Hx|auto].
   - apply nss_dict; [reflexivity|].
-    rewrite Forall_forall in *. intros [k x] Hp. destruct (H _ Hp) as [H1 H2]. cbn in *. split.
-    + exists k; split; [|exact H1]. apply in_or_app. left. apply in_map_iff. exists (k, x); auto.
-    + exists x; split; [|exact H2]. apply in_or_app. right. apply in_map_iff. exists (k, x); auto.
+    rewrite Forall_forall in *. intros [k0 x] Hp. destruct (H _ Hp) as [H1 H2]. cbn in *. split.
+    + exists k0; split; [|exact H1]. apply in_or_app. left. apply in_map_iff. exists (k0, x); auto.
+    + exists x; split; [|exact H2]. apply in_or_app. right. apply in_map_iff. exists (k0, x); auto.
 Qed.
 End Rules.
 
 (* ------------------------------------------------------------------ what is needed from the tables *)
-Definition strlike_classes : list cls := [CStr; CBytes].
+Definition strlike_shapes : list cls := [CStr; CBytes].
 Definition coll_classes : list cls := [CList; CTuple; CSet; CFrozenset; CDict].
 Definition scalar_bases : list cls :=
   [KAny; CNone; CBool; CInt; CFloat; CStr; CBytes; CPath; CFile FFile; CFile FText; CFile FDir].
 
+(* the classes values of a given shape can have: the builtin itself and the registered classes of that shape *)
+Definition shape_classes (T : tables) (b : cls) : list cls :=
+  b :: map KSub (filter (fun n => match nth_error (t_subs T) n with Some b' => cls_eqb b' b | None => false end)
+                        (seq 0 (List.length (t_subs T)))).
+Definition classes_of_shapes (T : tables) (bs : list cls) : list cls := flat_map (shape_classes T) bs.
+
+Lemma class_of_shape T v : In (class_of T v) (shape_classes T (base_class v)).
+Proof.
+  unfold shape_classes. destruct (class_of_cases T v) as [->|[n [-> Hn]]]; [now left|right].
+  apply in_map, filter_In. split.
+  - apply in_seq. split; [lia|]. cbn. apply nth_error_Some. congruence.
+  - rewrite Hn. apply cls_eqb_eq. reflexivity.
+Qed.
+
+Lemma class_in_shapes T v bs : In (base_class v) bs -> In (class_of T v) (classes_of_shapes T bs).
+Proof. intros H. apply in_flat_map. exists (base_class v). split; [exact H|apply class_of_shape]. Qed.
+
 Definition ctc_ok (T : tables) (sac : bool) (a b : cls) : bool :=
   match check_type_coercible T sac a b with Ok _ => true | Err _ => false end.
 
-(* Whenever the tables let a str/bytes be coerced to a container class, or a container to str/bytes, the pair
-   is one of A; and neither the containers nor str/bytes are FileSets (check_coercible's shortcut). *)
+(* Whenever the tables let a value of str/bytes shape be coerced to a container class, or a value of container shape
+   to str/bytes, the pair is one of A; a str/bytes-shaped value is an instance of str or bytes (so MultiInputObj
+   wraps it) and never of a container class; neither the containers nor str/bytes are FileSets. *)
 Definition tables_nss (A : cls -> cls -> bool) (T : tables) : bool :=
   forallb (fun sac =>
-    forallb (fun s => forallb (fun o =>
-       implb (ctc_ok T sac s o) (A s o) && implb (ctc_ok T sac o s) (A o s)) coll_classes) strlike_classes)
+    forallb (fun s => forallb (fun o => implb (ctc_ok T sac s o) (A s o)) coll_classes)
+            (classes_of_shapes T strlike_shapes)
+    && forallb (fun o => forallb (fun s => implb (ctc_ok T sac o s) (A o s)) strlike_shapes)
+               (classes_of_shapes T coll_classes))
     [false; true]
-  && forallb (fun c => negb (sub T c KFileSet)) (strlike_classes ++ coll_classes).
+  && forallb (fun s => (is_subclass T s CStr || is_subclass T s CBytes)
+                       && forallb (fun o => negb (is_subclass T s o)) coll_classes)
+             (classes_of_shapes T strlike_shapes)
+  && forallb (fun c => negb (sub T c KFileSet)) (strlike_shapes ++ coll_classes).
 
 (* the base classes of the annotation grammar: scalars only *)
 Fixpoint scalar_based (t : ty) : bool :=
@@ -127,6 +151,12 @@ Fixpoint scalar_based (t : ty) : bool :=
   | TDict k x => scalar_based k && scalar_based x
   end.
 
+Lemma is_coll_shape v : is_coll v = true <-> In (base_class v) coll_classes.
+Proof. destruct v as [| | | | | | |f| | |k fr|]; try destruct fr; cbn; intuition (try discriminate). Qed.
+
+Lemma is_strlike_shape v : is_strlike v = true <-> In (base_class v) strlike_shapes.
+Proof. destruct v as [| | | | | | |f| | |k fr|]; try destruct fr; cbn; intuition (try discriminate). Qed.
+
 Section Nss.
 Variable A : cls -> cls -> bool.
 Variable T : tables.
@@ -135,49 +165,58 @@ Variable sac : bool.
 Hypothesis WF : tables_wf T = true.
 Hypothesis TN : tables_nss A T = true.
 
-Lemma is_coll_class v : is_coll v = true <-> In (class_of v) coll_classes.
-Proof. destruct v as [| | | | | | |f| | |fr|]; try destruct fr; cbn; intuition (try discriminate). Qed.
-
-Lemma is_strlike_class v : is_strlike v = true <-> In (class_of v) strlike_classes.
-Proof. destruct v as [| | | | | | |f| | |fr|]; try destruct fr; cbn; intuition (try discriminate). Qed.
-
-Lemma tn_pairs s o :
-  In s strlike_classes -> In o coll_classes ->
-  (check_type_coercible T sac s o = Ok tt -> A s o = true) /\
-  (check_type_coercible T sac o s = Ok tt -> A o s = true).
+Lemma tn_parts :
+  (forall s o, In s (classes_of_shapes T strlike_shapes) -> In o coll_classes ->
+               check_type_coercible T sac s o = Ok tt -> A s o = true) /\
+  (forall o s, In o (classes_of_shapes T coll_classes) -> In s strlike_shapes ->
+               check_type_coercible T sac o s = Ok tt -> A o s = true) /\
+  (forall s, In s (classes_of_shapes T strlike_shapes) ->
+             (is_subclass T s CStr || is_subclass T s CBytes) = true /\
+             forall o, In o coll_classes -> is_subclass T s o = false) /\
+  (forall c, In c (strlike_shapes ++ coll_classes) -> sub T c KFileSet = false).
 Proof.
-  intros Hs Ho. unfold tables_nss in TN. apply andb_true_iff in TN. destruct TN as [H _].
-  rewrite forallb_forall in H. assert (In sac [false; true]) as Hsac by (destruct sac; cbn; auto).
-  specialize (H _ Hsac). rewrite forallb_forall in H. specialize (H _ Hs).
-  rewrite forallb_forall in H. specialize (H _ Ho). apply andb_true_iff in H. destruct H as [H1 H2].
-  unfold ctc_ok in *. split; intros E; rewrite E in *; cbn in *; assumption.
+  pose proof TN as H. unfold tables_nss in H. rewrite !andb_true_iff in H. destruct H as [[H1 H2] H3].
+  rewrite forallb_forall in H1. assert (In sac [false; true]) as Hsac by (destruct sac; cbn; auto).
+  specialize (H1 _ Hsac). apply andb_true_iff in H1. destruct H1 as [Ha Hb].
+  rewrite forallb_forall in Ha, Hb, H2, H3. repeat split.
+  - intros s o Hs Ho E. specialize (Ha _ Hs). rewrite forallb_forall in Ha. specialize (Ha _ Ho).
+    unfold ctc_ok in Ha. now rewrite E in Ha.
+  - intros o s Ho Hs E. specialize (Hb _ Ho). rewrite forallb_forall in Hb. specialize (Hb _ Hs).
+    unfold ctc_ok in Hb. now rewrite E in Hb.
+  - specialize (H2 _ H). now apply andb_true_iff in H2.
+  - intros o Ho. specialize (H2 _ H). apply andb_true_iff in H2. destruct H2 as [_ H2].
+    rewrite forallb_forall in H2. specialize (H2 _ Ho). now apply negb_true_iff in H2.
+  - intros c Hc. specialize (H3 _ Hc). now apply negb_true_iff in H3.
 Qed.
 
-Lemma tn_not_fileset c : In c (strlike_classes ++ coll_classes) -> sub T c KFileSet = false.
-Proof.
-  intros Hc. unfold tables_nss in TN. apply andb_true_iff in TN. destruct TN as [_ H].
-  rewrite forallb_forall in H. specialize (H _ Hc). now apply negb_true_iff in H.
-Qed.
+Lemma strlike_class v : is_strlike v = true -> In (class_of T v) (classes_of_shapes T strlike_shapes).
+Proof. intros H. apply class_in_shapes, is_strlike_shape, H. Qed.
+Lemma coll_class v : is_coll v = true -> In (class_of T v) (classes_of_shapes T coll_classes).
+Proof. intros H. apply class_in_shapes, is_coll_shape, H. Qed.
+
+Lemma tn_not_fileset c : In c (strlike_shapes ++ coll_classes) -> sub T c KFileSet = false.
+Proof. apply tn_parts. Qed.
 
 (* check_coercible reduces to check_type_coercible when the target is not a FileSet *)
 Lemma check_coercible_plain v c :
-  sub T c KFileSet = false -> check_coercible T sac v c = check_type_coercible T sac (class_of v) c.
+  sub T c KFileSet = false -> check_coercible T sac v c = check_type_coercible T sac (class_of T v) c.
 Proof. intros H. unfold check_coercible. rewrite H. now rewrite andb_false_r. Qed.
 
 Lemma unit_ok (r : result unit) u : r = Ok u -> r = Ok tt.
 Proof. destruct u. auto. Qed.
 
-(* a str / bytes accepted where a container class is wanted: only for the tolerated pairs *)
-Lemma enter_strlike o v c :
-  In o coll_classes -> is_strlike v = true -> enter T sac o v = Ok c -> A (class_of v) o = true.
+(* a str / bytes(-like) value where a container class is wanted: never an instance; accepted as coercible only for
+   the tolerated pairs *)
+Lemma enter_strlike o v inst :
+  In o coll_classes -> is_strlike v = true -> enter T sac o v = Ok inst ->
+  inst = false /\ A (class_of T v) o = true.
 Proof.
-  intros Ho Hs. unfold enter. destruct (is_instance T v o) eqn:E.
-  - intros _. apply (is_instance_container T WF) in E; [|exact Ho].
-    apply is_strlike_class in Hs. rewrite E in Hs. exfalso.
-    destruct Ho as [<-|[<-|[<-|[<-|[<-|[]]]]]]; cbn in Hs; intuition discriminate.
-  - destruct (check_coercible T sac v o) as [u|] eqn:Ec; [|discriminate]. intros _.
-    rewrite check_coercible_plain in Ec by (apply tn_not_fileset, in_or_app; right; exact Ho).
-    apply unit_ok in Ec. apply is_strlike_class in Hs. now apply (tn_pairs _ _ Hs Ho).
+  intros Ho Hs. unfold enter. destruct tn_parts as [Ha [_ [Hi _]]].
+  pose proof (strlike_class v Hs) as Hc. destruct (Hi _ Hc) as [_ Hno].
+  unfold is_instance. rewrite (Hno o Ho).
+  destruct (check_coercible T sac v o) as [u|] eqn:Ec; [|discriminate]. inversion 1; subst. split; [reflexivity|].
+  rewrite check_coercible_plain in Ec by (apply tn_not_fileset, in_or_app; right; exact Ho).
+  apply unit_ok in Ec. now apply Ha.
 Qed.
 
 Lemma iter_children v items : iter v = Ok items -> is_coll v = true -> incl items (children v).
@@ -189,65 +228,48 @@ Qed.
 Lemma iter_kinds v items : iter v = Ok items -> is_strlike v = true \/ is_coll v = true.
 Proof. destruct v; cbn; try discriminate; auto. Qed.
 
-Lemma construct_container_coll c items v : construct_container c items = Ok v -> is_coll v = true.
-Proof.
-  destruct c; cbn; try discriminate; intros H.
-  - now inversion H.
-  - now inversion H.
-  - apply mk_set_class in H. now subst.
-  - apply mk_set_class in H. now subst.
-Qed.
-
-Lemma construct_container_items c items v :
-  construct_container c items = Ok v ->
-  exists l, (v = VList l \/ v = VTuple l \/ exists fr, v = VSet fr l) /\ incl l items.
-Proof.
-  destruct c; cbn; try discriminate; intros H.
-  - inversion H; subst. exists items. split; [auto|apply incl_refl].
-  - inversion H; subst. exists items. split; [auto|apply incl_refl].
-  - apply mk_set_class in H. subst. eexists. split; [right; right; eexists; reflexivity|].
-    intros x Hx. apply dedupe_incl in Hx. destruct Hx as [Hx|[]]. exact Hx.
-  - apply mk_set_class in H. subst. eexists. split; [right; right; eexists; reflexivity|].
-    intros x Hx. apply dedupe_incl in Hx. destruct Hx as [Hx|[]]. exact Hx.
-Qed.
+Lemma shaped_cases o v' l' :
+  shaped o v' l' ->
+  (exists k, v' = VList k l') \/ (exists k, v' = VTuple k l') \/ exists k fr, v' = VSet k fr l'.
+Proof. destruct o; cbn; try contradiction; intros [k ->]; eauto. Qed.
 
 Lemma Forall2_sources (f : val -> result val) v items l :
-  (forall x y, f x = Ok y -> nss A x y = true) ->
-  incl items (children v) -> Forall2 (fun x y => f x = Ok y) items l -> Forall (has_source A v) l.
+  (forall x y, f x = Ok y -> nss T A x y = true) ->
+  incl items (children v) -> Forall2 (fun x y => f x = Ok y) items l -> Forall (has_source T A v) l.
 Proof.
   intros Hf Hin H. induction H as [|x y items l Hxy H IH]; constructor.
   - exists x. split; [apply Hin; left; reflexivity|exact (Hf _ _ Hxy)].
   - apply IH. intros z Hz. apply Hin. right; exact Hz.
 Qed.
 
-(* sequences built item by item from an iterable *)
-Lemma seq_nss (f : val -> result val) o v items l v' :
-  In o coll_classes -> (forall x y, f x = Ok y -> nss A x y = true) ->
-  enter T sac o v = Ok o -> iter v = Ok items ->
-  Forall2 (fun x y => f x = Ok y) items l -> construct_container o l = Ok v' ->
-  nss A v v' = true.
+(* a container built by [build] from the coerced items of an iterable *)
+Lemma build_nss (f : val -> result val) o v inst items l v' :
+  In o [CList; CTuple; CSet; CFrozenset] -> (forall x y, f x = Ok y -> nss T A x y = true) ->
+  enter T sac o v = Ok inst -> iter v = Ok items ->
+  Forall2 (fun x y => f x = Ok y) items l -> build o v inst (Ok l) = Ok v' ->
+  nss T A v v' = true.
 Proof.
-  intros Ho Hf He Hi HF Hc.
-  pose proof (construct_container_class _ _ _ Hc) as Hcls.
+  intros Ho Hf He Hi HF Hb. assert (In o coll_classes) as Ho' by (cbn in *; tauto).
   destruct (iter_kinds _ _ Hi) as [Hs|Hcoll].
-  - apply nss_allowed. rewrite Hcls. eapply enter_strlike; eassumption.
-  - destruct (construct_container_items _ _ _ Hc) as [l' [Hv Hl']].
-    eapply nss_items; [exact Hcoll|exact Hv|].
+  - destruct (enter_strlike o v inst Ho' Hs He) as [-> HA]. cbn [build] in Hb.
+    apply nss_allowed. now rewrite (construct_container_class T _ _ _ Hb).
+  - apply (build_shape T WF) in Hb; [|intros ->; eapply enter_true; exact He].
+    destruct Hb as [_ [l0 [El [Hsh _]]]]. inversion El; subst l0.
+    eapply nss_items; [exact Hcoll|exact (shaped_cases _ _ _ Hsh)|].
     pose proof (Forall2_sources f v items l Hf (iter_children _ _ Hi Hcoll) HF) as Hall.
-    rewrite Forall_forall in *. intros y Hy. apply Hall, Hl', Hy.
+    rewrite Forall_forall in *. intros y Hy. apply Hall. now apply (stored_incl o l).
 Qed.
 
 Lemma coerce_seq_nss o f v v' :
   In o [CList; CTuple; CSet; CFrozenset] ->
-  (forall x y, f x = Ok y -> nss A x y = true) ->
-  coerce_seq T sac o f v = Ok v' -> nss A v v' = true.
+  (forall x y, f x = Ok y -> nss T A x y = true) ->
+  coerce_seq T sac o f v = Ok v' -> nss T A v v' = true.
 Proof.
-  intros Ho Hf. assert (In o coll_classes) as Ho' by (cbn in *; tauto). unfold coerce_seq.
-  destruct (enter T sac o v) as [c|] eqn:E; [|discriminate].
-  pose proof (enter_container T WF sac o v c ltac:(cbn in *; tauto) E) as ->.
+  intros Ho Hf. unfold coerce_seq.
+  destruct (enter T sac o v) as [inst|] eqn:E; [|discriminate].
   destruct (iter v) as [items|] eqn:Ei; [|discriminate]. intros H.
-  apply build_items in H. destruct H as [l [Hl Hc]]. apply map_res_ok in Hl.
-  eapply seq_nss; eassumption.
+  destruct (map_res f items) as [l|] eqn:El; [|discriminate]. apply map_res_ok in El.
+  eapply build_nss; eassumption.
 Qed.
 
 Lemma zip_res_F2 (g : ty -> val -> result val) (P : val -> val -> Prop) : forall ts items l,
@@ -266,12 +288,12 @@ Proof.
 Qed.
 
 Lemma dict_res_sources fk fx v :
-  (forall a a', fk a = Ok a' -> nss A a a' = true) -> (forall b b', fx b = Ok b' -> nss A b b' = true) ->
+  (forall a a', fk a = Ok a' -> nss T A a a' = true) -> (forall b b', fx b = Ok b' -> nss T A b b' = true) ->
   forall kv acc d,
     incl (map fst kv) (children v) -> incl (map snd kv) (children v) ->
-    Forall (fun p => has_source A v (fst p) /\ has_source A v (snd p)) acc ->
+    Forall (fun p => has_source T A v (fst p) /\ has_source T A v (snd p)) acc ->
     dict_res fk fx kv acc = Ok d ->
-    Forall (fun p => has_source A v (fst p) /\ has_source A v (snd p)) d.
+    Forall (fun p => has_source T A v (fst p) /\ has_source T A v (snd p)) d.
 Proof.
   intros Hk Hx. induction kv as [|[a b] kv IH]; cbn; intros acc d I1 I2 Hacc H.
   - now inversion H; subst.
@@ -287,26 +309,29 @@ Proof.
 Qed.
 
 Lemma coerce_basic_nss c v v' :
-  existsb (cls_eqb c) scalar_bases = true -> coerce_basic T W sac c v = Ok v' -> nss A v v' = true.
+  existsb (cls_eqb c) scalar_bases = true -> coerce_basic T W sac c v = Ok v' -> nss T A v v' = true.
 Proof.
   intros Hc. unfold coerce_basic. destruct (is_instance T v c) eqn:E.
   - inversion 1; subst. apply nss_refl.
   - destruct (check_coercible T sac v c) as [u|] eqn:Ec; [|discriminate]. intros H.
-    apply construct_class in H. destruct H as [Hcls _].
+    apply (construct_class T) in H. destruct H as [Hcls Hbase].
     apply existsb_exists in Hc. destruct Hc as [c' [Hin Heq]]. apply cls_eqb_eq in Heq. subst c'.
+    assert (base_class v' = c) as Hb.
+    { destruct (class_of_cases T v') as [E'|[n [E' _]]]; [congruence|].
+      rewrite E' in Hcls. subst c. cbn in Hbase. intuition congruence. }
     destruct (is_coll v && is_strlike v') eqn:Ecs.
     + apply andb_true_iff in Ecs. destruct Ecs as [H1 H2].
-      apply is_coll_class in H1. apply is_strlike_class in H2. rewrite Hcls in H2.
+      apply is_strlike_shape in H2. rewrite Hb in H2.
       apply nss_allowed. rewrite Hcls.
       rewrite check_coercible_plain in Ec by (apply tn_not_fileset, in_or_app; left; exact H2).
-      apply unit_ok in Ec. now apply (tn_pairs _ _ H2 H1).
+      apply unit_ok in Ec. destruct tn_parts as [_ [Hb' _]]. apply Hb'; [now apply coll_class|exact H2|exact Ec].
     + apply nss_scalar; [|exact Ecs].
-      destruct v'; try reflexivity; cbn in Hcls; subst c; cbn in Hin;
-        try (destruct frozen); repeat destruct Hin as [Hin|Hin]; try discriminate; contradiction.
+      destruct (is_coll v') eqn:Ecv; [|reflexivity]. apply is_coll_shape in Ecv. rewrite Hb in Ecv.
+      cbn in Hin, Ecv. intuition congruence.
 Qed.
 
 Theorem coerce_nss :
-  forall t, scalar_based t = true -> forall v v', coerce T W sac t v = Ok v' -> nss A v v' = true.
+  forall t, scalar_based t = true -> forall v v', coerce T W sac t v = Ok v' -> nss T A v v' = true.
 Proof.
   induction t as [c|a IHa|ts IHts|a IHa|k x IHk IHx|fr a IHa|ts IHts|a IHa] using ty_ind';
     intros U v v' H; cbn [coerce] in H; cbn [scalar_based] in U.
@@ -314,18 +339,19 @@ Proof.
   - eapply (coerce_seq_nss CList); [cbn; tauto|apply IHa, U|exact H].
   - (* fixed-length tuple *)
     unfold coerce_tuple in H.
-    destruct (enter T sac CTuple v) as [c|] eqn:E; [|discriminate].
-    pose proof (enter_container T WF sac CTuple v c ltac:(cbn; tauto) E) as ->.
+    destruct (enter T sac CTuple v) as [inst|] eqn:E; [|discriminate].
     destruct (iter v) as [items|] eqn:Ei; [|discriminate].
     destruct (Nat.eqb _ _); [|discriminate].
-    apply build_items in H. destruct H as [l [Hl Hc]].
-    assert (Forall (fun a => forall x y, coerce T W sac a x = Ok y -> nss A x y = true) ts) as HF.
+    destruct (zip_res (map (coerce T W sac) ts) items) as [l|] eqn:Hl; [|discriminate].
+    assert (Forall (fun a => forall x y, coerce T W sac a x = Ok y -> nss T A x y = true) ts) as HF.
     { rewrite forallb_forall in U. rewrite Forall_forall in *. intros a Ha. apply IHts; auto. }
-    destruct (zip_res_F2 (coerce T W sac) (fun x y => nss A x y = true) ts items l HF Hl) as [it [Hit HF2]].
-    cbn in Hc. inversion Hc; subst.
+    destruct (zip_res_F2 (coerce T W sac) (fun x y => nss T A x y = true) ts items l HF Hl) as [it [Hit HF2]].
     destruct (iter_kinds _ _ Ei) as [Hs|Hcoll].
-    + apply nss_allowed. cbn. eapply (enter_strlike CTuple); [cbn; tauto|exact Hs|exact E].
-    + eapply nss_items; [exact Hcoll|right; left; reflexivity|].
+    + destruct (enter_strlike CTuple v inst ltac:(cbn; tauto) Hs E) as [-> HA]. cbn [build] in H.
+      apply nss_allowed. now rewrite (construct_container_class T _ _ _ H).
+    + apply (build_shape T WF) in H; [|intros ->; eapply enter_true; exact E].
+      destruct H as [_ [l0 [El [[k0 ->] _]]]]. inversion El; subst l0. cbn [stored is_setc].
+      eapply nss_items; [exact Hcoll|right; left; eexists; reflexivity|].
       pose proof (iter_children _ _ Ei Hcoll) as Hch. clear - HF2 Hit Hch.
       induction HF2 as [|x y it l Hxy HF2 IH]; constructor.
       * exists x. split; [apply Hch, Hit; left; reflexivity|exact Hxy].
@@ -333,12 +359,9 @@ Proof.
   - eapply (coerce_seq_nss CTuple); [cbn; tauto|apply IHa, U|exact H].
   - (* dict *)
     apply andb_true_iff in U. destruct U as [Uk Ux].
-    unfold coerce_dict in H.
-    destruct (enter T sac CDict v) as [c|] eqn:E; [|discriminate].
-    destruct v; try discriminate.
-    destruct (dict_res _ _ kv []) as [d|] eqn:Ed; [|discriminate]. inversion H; subst.
+    destruct (coerce_dict_shape T WF sac _ _ _ _ H) as [_ [g0 [kv [g [d [-> [Hd ->]]]]]]].
     apply nss_dict; [reflexivity|].
-    eapply (dict_res_sources _ _ (VDict kv) (IHk Uk) (IHx Ux) kv [] d); [| |constructor|exact Ed].
+    eapply (dict_res_sources _ _ (VDict g0 kv) (IHk Uk) (IHx Ux) kv [] d); [| |constructor|exact Hd].
     + intros z Hz. cbn. apply in_or_app. now left.
     + intros z Hz. cbn. apply in_or_app. now right.
   - destruct fr; [eapply (coerce_seq_nss CFrozenset)|eapply (coerce_seq_nss CSet)]; try (apply IHa, U); try exact H; cbn; tauto.
@@ -347,16 +370,18 @@ Proof.
     rewrite forallb_forall in U. rewrite Forall_forall in IHts. eapply IHts; eauto.
   - (* MultiInputObj *)
     unfold coerce_multi in H.
-    assert (forall r, wrap1 r = Ok v' -> r = coerce T W sac a v -> nss A v v' = true) as Hw.
+    assert (forall r, wrap1 r = Ok v' -> r = coerce T W sac a v -> nss T A v v' = true) as Hw.
     { intros r Hr ->. destruct (coerce T W sac a v) as [x|] eqn:E; [|discriminate]. inversion Hr; subst.
       apply nss_wrap. eapply IHa; eassumption. }
-    destruct (is_vstr v) eqn:Evs.
+    destruct (is_vstr T v) eqn:Evs.
     + eapply Hw; [exact H|reflexivity].
     + destruct (match iter v with Ok items => map_res (coerce T W sac a) items | Err e => Err e end) as [l|e] eqn:E.
       * inversion H; subst. destruct (iter v) as [items|] eqn:Ei; [|discriminate]. apply map_res_ok in E.
         destruct (iter_kinds _ _ Ei) as [Hs|Hcoll].
-        -- destruct v; discriminate.
-        -- eapply nss_items; [exact Hcoll|left; reflexivity|].
+        -- (* a str/bytes(-like) value is an instance of str or bytes: it was wrapped above *)
+           exfalso. destruct tn_parts as [_ [_ [Hi _]]]. destruct (Hi _ (strlike_class v Hs)) as [Hin _].
+           unfold is_vstr, is_instance in Evs. rewrite Hin in Evs. discriminate.
+        -- eapply nss_items; [exact Hcoll|left; eexists; reflexivity|].
            eapply Forall2_sources; [|exact (iter_children _ _ Ei Hcoll)|exact E]. intros; eapply IHa; eassumption.
       * destruct e; try discriminate. eapply Hw; [exact H|reflexivity].
 Qed.
